@@ -142,6 +142,11 @@ def run_check(modname, tier, seed, jobs=None):
     pid = mod.ID
     t0 = time.time()
     shards = list(mod.shards(tier))
+    flt = os.environ.get("VERIF_SHARD_FILTER")  # development aid only (the evidence then says so)
+    if flt:
+        import re
+
+        shards = [s for s in shards if re.search(flt, repr(s))]
     # the seed only rotates shard order (enumeration is deterministic)
     if shards:
         k = seed % len(shards)
